@@ -484,7 +484,7 @@ class EvolvableDistribution(EvolvableWrapper):
             if isinstance(action_mask, (np.ndarray, list)):
                 action_mask = (
                     np.stack(action_mask)
-                    if action_mask.dtype == np.object_ or isinstance(action_mask, list)
+                    if isinstance(action_mask, list) or action_mask.dtype == np.object_
                     else action_mask
                 )
 
